@@ -4,6 +4,7 @@ package main
 
 import (
 	"bufio"
+	"context"
 	"os"
 	"fmt"
 	"io"
@@ -37,6 +38,7 @@ type Solver struct {
 	log     io.Writer
 	nq      int // queries since (re)start
 	oneShot bool
+	ctx     context.Context // cancels a running one-shot process
 	defLog  []int
 	marks   []int
 	stack   []*Term // path-condition conjuncts currently asserted, one push level each
@@ -52,13 +54,15 @@ func solverArgs(kind string, timeoutMs int) (string, []string) {
 		return "cvc5", []string{"--incremental", "--produce-models", "--lang=smt2", "--tlimit-per=" + strconv.Itoa(timeoutMs)}
 	case "cvc5-int":
 		return "cvc5", []string{"--incremental", "--produce-models", "--lang=smt2", "--solve-bv-as-int=sum", "--tlimit-per=" + strconv.Itoa(timeoutMs)}
+	case "z3-bv1":
+		return "z3-new", []string{"-in", "-t:" + strconv.Itoa(timeoutMs)}
 	}
 	panic("unknown solver " + kind)
 }
 
 func NewSolver(kind string, timeoutMs int) (*Solver, error) {
 	s := &Solver{kind: kind, timeout: timeoutMs}
-	if kind == "cvc5-int" {
+	if kind == "cvc5-int" || kind == "z3-int" || kind == "z3-bv1" {
 		// cvc5's integer encoding degrades badly with accumulated incremental state:
 		// every query goes to a fresh process with only the definitions it needs
 		s.oneShot = true
@@ -277,6 +281,9 @@ func (s *Solver) readSexp() (string, error) {
 // Check decides satisfiability of the conjunction of asserts.  When sat and
 // wantModel, the model of every variable occurring in asserts (plus extra) is returned.
 func (s *Solver) Check(asserts []*Term, wantModel bool, extra []*Term) (SatResult, map[string]uint64) {
+	if s.kind == "z3-int" {
+		return s.checkInt(asserts, wantModel)
+	}
 	if s.oneShot {
 		return s.checkOneShot(asserts, wantModel)
 	}
@@ -413,6 +420,9 @@ func parseModel(txt string, m map[string]uint64) {
 		case strings.HasPrefix(val, "#b"):
 			v, _ := strconv.ParseUint(val[2:], 2, 64)
 			m[name] = v
+		case len(val) > 0 && val[0] >= '0' && val[0] <= '9':
+			v, _ := strconv.ParseUint(val, 10, 64)
+			m[name] = v
 		case strings.HasPrefix(val, "(_ bv"):
 			f := strings.Fields(val[5:])
 			v, _ := strconv.ParseUint(f[0], 10, 64)
@@ -472,7 +482,7 @@ func (s *Solver) checkOneShot(asserts []*Term, wantModel bool) (SatResult, map[s
 			a2 = append(a2, a)
 		}
 	}
-	cmd := exec.Command(bin, a2...)
+	cmd := exec.CommandContext(s.ctxOrBackground(), bin, a2...)
 	cmd.Stdin = strings.NewReader(script.String())
 	out, _ := cmd.Output()
 	txt := string(out)
@@ -496,4 +506,206 @@ func (s *Solver) checkOneShot(asserts []*Term, wantModel bool) (SatResult, map[s
 	}
 	s.Unknown++
 	return Unknown, nil
+}
+
+// ---- integer encoding (mathematical Int with explicit mod 2^w) ----
+
+type intPrinter struct {
+	sb      strings.Builder
+	defined map[int]bool
+	vars    []*Term
+	err     error
+}
+
+func pow2(w int) string {
+	if w < 63 {
+		return strconv.FormatUint(uint64(1)<<uint(w), 10)
+	}
+	if w == 63 {
+		return "9223372036854775808"
+	}
+	return "18446744073709551616"
+}
+
+func (p *intPrinter) ref(t *Term) string {
+	switch t.Op {
+	case OpConst:
+		if t.W == 0 {
+			if t.V != 0 {
+				return "true"
+			}
+			return "false"
+		}
+		return strconv.FormatUint(t.V, 10)
+	case OpVar:
+		return quoteName(t.Name)
+	}
+	return "i" + strconv.Itoa(t.ID)
+}
+
+func (p *intPrinter) signed(t *Term) string {
+	r := p.ref(t)
+	return "(ite (>= " + r + " " + pow2(t.W-1) + ") (- " + r + " " + pow2(t.W) + ") " + r + ")"
+}
+
+func (p *intPrinter) define(t *Term) {
+	if t.Op == OpConst || p.defined[t.ID] || p.err != nil {
+		return
+	}
+	for _, a := range t.A {
+		p.define(a)
+	}
+	p.defined[t.ID] = true
+	if t.Op == OpVar {
+		p.vars = append(p.vars, t)
+		if t.W == 0 {
+			p.sb.WriteString("(declare-const " + quoteName(t.Name) + " Bool)\n")
+		} else {
+			p.sb.WriteString("(declare-const " + quoteName(t.Name) + " Int)\n")
+			p.sb.WriteString("(assert (and (<= 0 " + quoteName(t.Name) + ") (< " + quoteName(t.Name) + " " + pow2(t.W) + ")))\n")
+		}
+		return
+	}
+	sort := "Int"
+	if t.W == 0 {
+		sort = "Bool"
+	}
+	a := func(i int) string { return p.ref(t.A[i]) }
+	m := pow2(t.W)
+	var e string
+	switch t.Op {
+	case OpNot:
+		e = "(not " + a(0) + ")"
+	case OpAnd:
+		e = "(and " + a(0) + " " + a(1) + ")"
+	case OpOr:
+		e = "(or " + a(0) + " " + a(1) + ")"
+	case OpIte:
+		e = "(ite " + a(0) + " " + a(1) + " " + a(2) + ")"
+	case OpEq:
+		e = "(= " + a(0) + " " + a(1) + ")"
+	case OpUlt:
+		e = "(< " + a(0) + " " + a(1) + ")"
+	case OpUle:
+		e = "(<= " + a(0) + " " + a(1) + ")"
+	case OpSlt:
+		e = "(< " + p.signed(t.A[0]) + " " + p.signed(t.A[1]) + ")"
+	case OpSle:
+		e = "(<= " + p.signed(t.A[0]) + " " + p.signed(t.A[1]) + ")"
+	case OpAdd:
+		e = "(mod (+ " + a(0) + " " + a(1) + ") " + m + ")"
+	case OpSub:
+		e = "(mod (- " + a(0) + " " + a(1) + ") " + m + ")"
+	case OpMul:
+		e = "(mod (* " + a(0) + " " + a(1) + ") " + m + ")"
+	case OpNeg:
+		e = "(mod (- " + a(0) + ") " + m + ")"
+	case OpBNot:
+		e = "(- " + strconv.FormatUint(mask(t.W), 10) + " " + a(0) + ")"
+	case OpUDiv:
+		e = "(ite (= " + a(1) + " 0) " + strconv.FormatUint(mask(t.W), 10) + " (div " + a(0) + " " + a(1) + "))"
+	case OpURem:
+		e = "(ite (= " + a(1) + " 0) " + a(0) + " (mod " + a(0) + " " + a(1) + "))"
+	case OpSDiv, OpSRem:
+		// truncated division on the signed readings (divisor assumed non-zero: Go panics before)
+		x, y := p.signed(t.A[0]), p.signed(t.A[1])
+		q := "(ite (>= " + x + " 0) (ite (> " + y + " 0) (div " + x + " " + y + ") (- (div " + x + " (- " + y + "))))" +
+			" (ite (> " + y + " 0) (- (div (- " + x + ") " + y + ")) (div (- " + x + ") (- " + y + "))))"
+		if t.Op == OpSDiv {
+			e = "(ite (= " + a(1) + " 0) 0 (mod " + q + " " + m + "))"
+		} else {
+			e = "(ite (= " + a(1) + " 0) " + a(0) + " (mod (- " + x + " (* " + y + " " + q + ")) " + m + "))"
+		}
+	case OpConcat:
+		e = "(+ (* " + a(0) + " " + pow2(t.A[1].W) + ") " + a(1) + ")"
+	case OpExtract:
+		e = "(mod (div " + a(0) + " " + pow2(t.Lo) + ") " + pow2(t.Hi-t.Lo+1) + ")"
+	case OpZExt:
+		e = a(0)
+	case OpSExt:
+		e = "(mod " + p.signed(t.A[0]) + " " + m + ")"
+	case OpBAnd, OpBOr, OpBXor:
+		// supported only when both operands are single bits wide or one is a low mask (handled by the simplifier)
+		if t.W == 1 {
+			switch t.Op {
+			case OpBAnd:
+				e = "(* " + a(0) + " " + a(1) + ")"
+			case OpBOr:
+				e = "(- (+ " + a(0) + " " + a(1) + ") (* " + a(0) + " " + a(1) + "))"
+			default:
+				e = "(mod (+ " + a(0) + " " + a(1) + ") 2)"
+			}
+		} else {
+			p.err = fmt.Errorf("bitwise %s on non-constant operands has no integer encoding", opNames[t.Op])
+			return
+		}
+	default:
+		p.err = fmt.Errorf("%s has no integer encoding", opNames[t.Op])
+		return
+	}
+	p.sb.WriteString("(define-fun i" + strconv.Itoa(t.ID) + " () " + sort + " " + e + ")\n")
+}
+
+// checkInt decides the conjunction in the integer encoding with a fresh z3 process.
+func (s *Solver) checkInt(asserts []*Term, wantModel bool) (SatResult, map[string]uint64) {
+	t0 := time.Now()
+	defer func() { s.Secs += time.Since(t0).Seconds(); s.Queries++ }()
+	p := &intPrinter{defined: map[int]bool{}}
+	for _, a := range asserts {
+		if a.IsFalse() {
+			return Unsat, nil
+		}
+		p.define(a)
+	}
+	if p.err != nil {
+		s.Unknown++
+		return Unknown, nil
+	}
+	for _, a := range asserts {
+		if !a.IsTrue() {
+			p.sb.WriteString("(assert " + p.ref(a) + ")\n")
+		}
+	}
+	p.sb.WriteString("(check-sat)\n")
+	if wantModel && len(p.vars) > 0 {
+		p.sb.WriteString("(get-value (")
+		for _, v := range p.vars {
+			p.sb.WriteString(quoteName(v.Name) + " ")
+		}
+		p.sb.WriteString("))\n")
+	}
+	if s.log != nil {
+		io.WriteString(s.log, "; ---- int one-shot ----\n"+p.sb.String())
+	}
+	cmd := exec.CommandContext(s.ctxOrBackground(), "z3-new", "-in", "-t:"+strconv.Itoa(s.timeout))
+	cmd.Stdin = strings.NewReader(p.sb.String())
+	out, _ := cmd.Output()
+	txt := string(out)
+	first := strings.TrimSpace(txt)
+	if i := strings.IndexByte(first, '\n'); i >= 0 {
+		first = strings.TrimSpace(first[:i])
+	}
+	switch first {
+	case "unsat":
+		return Unsat, nil
+	case "sat":
+		m := map[string]uint64{}
+		if wantModel && len(p.vars) > 0 {
+			if strings.Contains(txt, "(error") {
+				s.Unknown++
+				return Unknown, nil
+			}
+			parseModel(txt, m)
+		}
+		return Sat, m
+	}
+	s.Unknown++
+	return Unknown, nil
+}
+
+func (s *Solver) ctxOrBackground() context.Context {
+	if s.ctx != nil {
+		return s.ctx
+	}
+	return context.Background()
 }
